@@ -67,7 +67,7 @@ def steered_cases(tier, seed):
     return [build(t) for t in templ], sum(1 for t in templ if t.get('hit'))
 
 
-def faulted_rotations(tier, seed):
+def faulted_rotations(tier, seed, prop=None, names=('rot3', 'empty_rotation'), tag='c13f'):
     """one write to some output fails (once); every OTHER output of the history - in particular those opened by later
     rotations - must still be a complete, self-contained file (or empty)"""
     import concurrent.futures as cf
@@ -76,15 +76,16 @@ def faulted_rotations(tier, seed):
     from vlib import build, cbor, cdns_schema, runner
     from vlib.findings import Violation
     from . import sysutil, c16
+    PROP = prop or globals()['PROP']
     vs = []
     drvd, _ = build.ensure('asan')
     exe = os.path.join(drvd, 'vdrv')
-    base = runner.workdir('c13f')
+    base = runner.workdir(tag)
     runs = 0
     try:
         scen = []
         for name, case, pre in sysutil.scenario_cases(seed, tier):
-            if not ('rot3' in name or 'empty_rotation' in name):
+            if not any(n in name for n in names):
                 continue
             for kind in ('name', 'fd'):
                 c = copy.deepcopy(case)
